@@ -415,6 +415,97 @@ func e6CtlCase(seed uint64, n int) Case {
 	}}
 }
 
+// e6RelistCase: controller path WITH relists that produce multi-event batches
+// (the watch drops events) while further watch events arrive: every subscriber's
+// stream must stay a well-formed, in-order delta (no object going backwards),
+// and reading the cache after an event never returns an older version.
+func e6RelistCase(seed uint64, n int) Case {
+	id := fmt.Sprintf("E6/relist/%d/%d", seed, n)
+	return Case{ID: id, Desc: map[string]interface{}{"seed": seed, "n": n, "path": "controller with lossy watch and relists"}, Bubble: true, Run: func(r *Res) {
+		rng := kit.NewRng(kit.Mix(seed, uint64(n)+6660))
+		P := time.Second
+		tgt := []string{"controller|distribute events", "controller|list complete", "publisher|distribute event", "controller|update event"}[rng.Intn(4)]
+		hold := time.Duration(100+rng.Intn(400)) * time.Microsecond
+		if n%2 == 0 {
+			// hold whoever is at that point for a long (virtual) time: whatever it was
+			// about to publish is overtaken by everything else
+			hold = time.Duration(20+rng.Intn(200)) * time.Millisecond
+		}
+		core := kit.NewCore(&kit.Plan{Seed: rng.U64(), PYield: 150, PSleep: 30, MaxSleep: 100 * time.Microsecond, Targets: map[string]time.Duration{tgt: hold}})
+		srv := kit.NewPodServer(core)
+		u := smallUniverse()
+		for i := 0; i < 4; i++ {
+			u.mutate(rng, srv)
+		}
+		drng := rng.Fork(9)
+		srv.WatchPlan = func(i int) kit.WatchFault {
+			f := kit.NoWatchFault()
+			f.Drop = map[int]bool{}
+			for j := 0; j < 200; j++ {
+				if drng.Chance(45) {
+					f.Drop[j] = true
+				}
+			}
+			return f
+		}
+		g, err := newCtlRig(core, srv, P, nil)
+		if err != nil {
+			r.Inc(err.Error())
+			return
+		}
+		t := newTree(g.ctl)
+		for i := 0; i < 5; i++ {
+			var cands []*node
+			for _, x := range t.nodes {
+				if x.isController() && t.depth(x) < 3 {
+					cands = append(cands, x)
+				}
+			}
+			kind := "sub"
+			if i%2 == 1 {
+				kind = "clone"
+			}
+			if _, err := t.addChild(cands[rng.Intn(len(cands))], kind, nil, true); err != nil {
+				r.V("C05", "subscribe-error", "%v", err)
+				return
+			}
+		}
+		if !waitCh(g.ctl.Ready(), virtBound) {
+			r.V("C05", "never-ready", "controller not ready")
+			return
+		}
+		g.barrier()
+		s0, _ := cacheSnap(g.ctl.Cache())
+		for _, nd := range t.nodes {
+			if nd.mir != nil {
+				nd.mir.seed(s0)
+			}
+		}
+		for round := 0; round < 6 && !r.Failed(); round++ {
+			// mutations spread over a little more than one period, so that relists
+			// find several differences and watch events keep arriving around them
+			for i := 0; i < 10; i++ {
+				u.mutate(rng, srv)
+				time.Sleep(time.Duration(20+rng.Intn(200)) * time.Millisecond)
+			}
+			time.Sleep(P + P/5)
+			g.barrier()
+			for _, nd := range t.nodes {
+				if nd.mir == nil {
+					continue
+				}
+				nd.mir.report(r, "C05")
+				nd.mir.reportCacheClause(r)
+				r.Add("relist-path-stream-checks", 1)
+			}
+		}
+		r.Add("relist-path-lists", int64(len(srv.Lists())))
+		g.shutdown(r, "C12")
+		r.Key(id)
+		r.Sample = map[string]interface{}{"path": "controller with lossy watch and relists", "slow_point": tgt, "lists": len(srv.Lists())}
+	}}
+}
+
 func init() {
 	register("E6", func(tier string, seed uint64) []Case {
 		var cases []Case
@@ -425,6 +516,9 @@ func init() {
 		m := tierPick(tier, 80, 6000)
 		for i := 0; i < m; i++ {
 			cases = append(cases, e6CtlCase(seed, i))
+		}
+		for i := 0; i < tierPick(tier, 60, 3000); i++ {
+			cases = append(cases, e6RelistCase(seed, i))
 		}
 		return cases
 	})
